@@ -12,7 +12,8 @@ import "time"
 // on nextBlock; when abortSelf is closed the producer closes nextBlock (like the simulated sources).
 type VerifLoopSource struct {
 	VerifSource
-	feed chan *dataBlock
+	feed         chan *dataBlock
+	failStartRun int // the next failStartRun calls of StartRun return an error (like a driver that is not ready)
 }
 
 // NewVerifLoopSource creates a scripted source with nchan channels for use with the real Start.
@@ -26,8 +27,15 @@ func NewVerifLoopSource(nchan int, sampleRate float64) *VerifLoopSource {
 	return vs
 }
 
+// VerifFailStartRun makes the next n calls of StartRun fail.
+func (vs *VerifLoopSource) VerifFailStartRun(n int) { vs.failStartRun = n }
+
 // StartRun launches the producer.
 func (vs *VerifLoopSource) StartRun() error {
+	if vs.failStartRun > 0 {
+		vs.failStartRun--
+		return errVerifBlock
+	}
 	abort, next := vs.abortSelf, vs.nextBlock
 	go func() {
 		for {
@@ -129,3 +137,31 @@ func VerifLanceroMix(nmix int, idx []int, fractions []float64) bool {
 
 // VerifChanNumbers returns the channel numbers of a prepared source.
 func (ds *AnySource) VerifChanNumbers() []int { return append([]int(nil), ds.chanNumbers...) }
+
+// VerifRunDoneState observes the completion barrier of the source: whether runDone.Wait() returns within the
+// timeout (counter 0), and the run-done channel (0 nil: never activated, 1 open, 2 closed).
+func (ds *AnySource) VerifRunDoneState(timeout time.Duration) (idle bool, done int) {
+	waited := make(chan struct{})
+	go func() {
+		ds.runDone.Wait()
+		close(waited)
+	}()
+	select {
+	case <-waited:
+		idle = true
+	case <-time.After(timeout):
+	}
+	ch := ds.RunDoneChan()
+	switch {
+	case ch == nil:
+		done = 0
+	default:
+		select {
+		case <-ch:
+			done = 2
+		default:
+			done = 1
+		}
+	}
+	return idle, done
+}
